@@ -208,6 +208,17 @@ func init() {
 		k(st, scalar(ref))
 	}
 	libSpecs["bytes.NewBuffer"] = libSpecs["bytes.NewReader"]
+	// buffering wrappers: a new object (never the wrapped reader/writer itself); what it reads ahead or holds back is not modelled
+	for _, n := range []string{"bufio.NewReader", "bufio.NewReaderSize", "bufio.NewWriter", "bufio.NewWriterSize", "io.LimitReader", "io.TeeReader", "io.MultiReader", "io.MultiWriter"} {
+		libSpecs[n] = func(e *Engine, st *State, fn *ssa.Function, args []Val, pos token.Pos, k Kont) {
+			ref := e.newRef(st)
+			if _, isI := fn.Signature.Results().At(0).Type().Underlying().(*types.Interface); isI {
+				k(st, Val{T: []*Term{e.tb.Fresh("wraptag", SInt), ref}})
+				return
+			}
+			k(st, scalar(ref))
+		}
+	}
 	libSpecs["bytes.Repeat"] = func(e *Engine, st *State, fn *ssa.Function, args []Val, pos token.Pos, k Kont) {
 		tb := e.tb
 		b := e.materialiseIfSlice(st, args[0], fn.Signature.Params().At(0).Type())
